@@ -409,6 +409,20 @@ def check(P, R):
         R.ob('C19.b', ff.fq, None, ok, text=f'filter {name}: converter {cname}, formatter {short(fmt)}', detail=det,
              why='the built URL must re-match with the same parameter values', key_extra=str(name))
     R.require(n_conv >= 2, 'converting filters (int, float) not found in FilterFactory.filters')
+    # what url() hands back is the join of the collected parts (or the pattern itself when the rule has no wildcard): values are never substituted into the
+    # pattern text, where an inserted value would be scanned again
+    for r_ in [n for n in walk_shallow(f.node) if isinstance(n, ast.Return) and n.value is not None]:
+        rn_ = g.node_of_stmt(r_)[0]
+        xv_ = T.expand(f, r_.value, rn_)
+        is_join = isinstance(xv_, ast.Call) and call_attr(xv_) == 'join' and is_const(xv_.func.value, '')
+        is_pat = dotted(xv_) == 'self.pattern_out' and any((not holds_) and 'params' in src(e_) for (e_, holds_, _) in T.guard_atoms(f, rn_))
+        cl_ = rd.closure_nodes(r_.value, rn_)
+        subst = [x for x in cl_ if isinstance(x, ast.Call) and call_attr(x) in ('replace', 'sub', 'format', 'subn')]
+        ok_ = (is_join or is_pat) and not subst
+        R.ob('C19.c', f, r_, ok_, text=f'{short(r_)}: the joined parts', detail='' if ok_ else
+             (f'the URL is produced by `{short(subst[0])}`: substituting into a text that already contains inserted values rescans them - a value containing the '
+              f'marker character (or a doubled separator) is rewritten and the URL no longer matches' if subst else 'url() returns something other than the joined parts'),
+             why='the built URL re-matches with the same parameter values', key_extra='ret:' + ('join' if is_join else 'pattern' if is_pat else 'other'))
     # one index per marker
     idxs = {}
     for x in walk_shallow(f.node):
